@@ -38,7 +38,7 @@ func init() {
 	vlib.Register(&vlib.Prop{
 		ID:    "C18",
 		Level: "exploration",
-		Cases: func(tier string) int { return vlib.TierN(tier, 320, 6000) },
+		Cases: func(tier string) int { return vlib.TierN(tier, 320, 42000) },
 		Rule: "each case: one GoChannel, Router, cqrs.CommandProcessor with a requestreply handler and a PubSubBackend whose reply topic is shared by all requests; 1..32 concurrent SendWithReplies / SendWithReply calls; " +
 			"handler outcomes per command {result, error, error k times then success (k+1 replies when AckCommandErrors=false)}; AckCommandErrors on/off; optional ListenForReplyTimeout; caller behaviours {drain then cancel, read one and cancel late, never read then cancel, cancel right away}; yield injection at the listener/router/gochannel hook points. " +
 			"Oracle: every reply a caller receives carries its own command id (result id or error text), draining callers get all their replies; the command message is unsettled when its reply is published and afterwards settled as AckCommandErrors says; " +
